@@ -28,6 +28,9 @@ var vAggCur *vAgg
 
 // vParseFloat stands for strconv.ParseFloat on the field tokens: token "vK" has the K-th number.
 func vParseFloat(s string) (float64, error) { return vAggCur.numbers[int(s[1]-'0')], nil }
+func vParseFloat2(_ func(string, int) (float64, error), s string) (float64, error) {
+	return vParseFloat(s)
+}
 
 func (x *vAgg) Len() int                 { return x.n + 1 }
 func (x *vAgg) GetMID(l seq.LID) seq.MID { return seq.MID(x.mids[l]) }
